@@ -122,7 +122,8 @@ double calcConvergence(dvector *t_new, dvector *t_old)
  */
 void PCA(matrix *mx, int scaling, size_t npc, PCAMODEL* model, ssignal *s)
 {
-  size_t i, j, pc, it;
+  size_t i, j, k, pc, it;
+  double tmp;
   dvector *t;
   dvector *t_old;
   dvector *p;
@@ -392,6 +393,30 @@ void PCA(matrix *mx, int scaling, size_t npc, PCAMODEL* model, ssignal *s)
           /* End Step 5 */
         }
       }
+      /* The iteration can meet the convergence criterion on a minor axis first
+       * (start column almost orthogonal to the dominant one, e.g. when all the
+       * columns tie in variance): keep the components in order of decreasing
+       * eigenvalue. The deflation does not depend on the order. dmodx of the
+       * slot that moves up becomes the residual without the component that
+       * moves down: sqrt(dmodx_both^2 + t_down^2), the loadings being orthonormal.
+       */
+      for(k = pc; k > 0 && eval->data[k] > eval->data[k-1]; k--){
+        for(i = 0; i < E->row; i++){
+          model->dmodx->data[i][k-1] = sqrt(square(model->dmodx->data[i][k]) + square(model->scores->data[i][k-1]));
+          tmp = model->scores->data[i][k];
+          model->scores->data[i][k] = model->scores->data[i][k-1];
+          model->scores->data[i][k-1] = tmp;
+        }
+        for(j = 0; j < E->col; j++){
+          tmp = model->loadings->data[j][k];
+          model->loadings->data[j][k] = model->loadings->data[j][k-1];
+          model->loadings->data[j][k-1] = tmp;
+        }
+        tmp = eval->data[k];
+        eval->data[k] = eval->data[k-1];
+        eval->data[k-1] = tmp;
+      }
+
       /*Reset all the variables*/
       DVectorSet(p, 0.f);
       DVectorSet(t, 0.f);
